@@ -251,7 +251,7 @@ def feedOracle (codec : String) (o : Orc) (inp : Bytes) (flags : Flags) (err : B
                  else ((p.seq, s!"{p.seq} {b2s p.marker} {p.ts} {p.payload}", lay'.sid) :: o3.sentLog).take 600
       ({ o3 with sentLog := log }, c04 <|> c01 <|> c02a <|> c02b)
 
-def nackOracle (o : Orc) (n : Nat) (sent : List Sent) : Option String :=
+def nackOracle (o : Orc) (n : Nat) (sent : List Sent) (after : Option Layer := none) : Option String :=
   match sent with
   | [] => none
   | p :: _ =>
@@ -261,8 +261,11 @@ def nackOracle (o : Orc) (n : Nat) (sent : List Sent) : Option String :=
       | some (_, first, sidThen) =>
         let now := s!"{p.seq} {b2s p.marker} {p.ts} {p.payload}"
         let flip := s!"{p.seq} {b2s (!p.marker)} {p.ts} {p.payload}"
-        if now ≠ first && flip = first && sidThen ≠ o.layer.sid then
-          some s!"C03: retransmission of {n} differs from the packet originally sent only in the marker bit (resent with marker={b2s p.marker}); the receiver's spatial layer changed {sidThen}->{o.layer.sid} in between"
+        -- the layer the retransmission was judged by: it may have changed before the NACK, or (the resent
+        -- packet being the start of a keyframe) during the retransmission's own pass through Write
+        let sidNow := match after with | some l => (if sidThen ≠ o.layer.sid then o.layer.sid else l.sid) | none => o.layer.sid
+        if now ≠ first && flip = first && sidThen ≠ sidNow then
+          some s!"C03: retransmission of {n} differs from the packet originally sent only in the marker bit (resent with marker={b2s p.marker}); the receiver's spatial layer changed {sidThen}->{sidNow} in between"
         else if now ≠ first && flip = first then
           some s!"C03: retransmission of {n} differs from the packet originally sent in the marker bit (resent with marker={b2s p.marker}) although the spatial layer is unchanged"
         else if now ≠ first then some s!"C03: retransmission of {n} differs from the packet originally sent: [{first.take 60}] vs [{now.take 60}]"
@@ -311,7 +314,7 @@ def step (st : St) (op impl : List String) : St × Verdict :=
         let v := cmp s!"{outS r} | {layerS (unpack r.st.word)}" impl
         let (outT, layT) := splitBar impl
         let (_, sent, _) := parseOut outT
-        let ov := nackOracle st.orc n sent
+        let ov := nackOracle st.orc n sent (parseLayer layT)
         let st' := withLayer { st with s := r.st } layT
         (st', match ov with | some m => .oracle m | none => v)
       | none => (st, .badop "nack")
